@@ -219,6 +219,24 @@ func TestC05(t *testing.T) {
 			}
 		}
 	}
+	// depth: chains of 70 and 140 services from a shared root to a contextual leaf, one edge kind each
+	for kind := 0; kind < 5; kind++ {
+		idx++
+		if !ev.Mine(idx) {
+			continue
+		}
+		for _, n := range []int{70, 140} {
+			scopes := make([]string, n)
+			scopes[0], scopes[n-1] = "shared", "contextual"
+			var edges [][3]int
+			for i := 0; i+1 < n; i++ {
+				edges = append(edges, [3]int{i, i + 1, kind})
+			}
+			verdict(t, gen.EdgeGraph(n, edges, scopes), fmt.Sprintf("depth:chain-of-%d", n))
+			scopes[n-1] = ""
+			verdict(t, gen.EdgeGraph(n, edges, scopes), fmt.Sprintf("depth:chain-of-%d:no-contextual-leaf", n))
+		}
+	}
 	col.Exhaustive("every acyclic dependency graph on 2 and on 3 services x one edge kind of {argument, field, call argument, !tagged through a tag, decorator-on-tag with a dependency} x every assignment of {unset, shared, contextual, non_shared}, each also with look-alike names (a parameter named like every service referenced by every service, every service carrying a tag named like another service) and packed argument lists, and with the services that reference nothing declared as placeholders (todo: true) keeping their scope")
 	if ev.Thorough() {
 		// n = 3 with mixed edge kinds, n = 4 with at most 5 edges: sampled by rapid
